@@ -37,6 +37,8 @@ type Scenario struct {
 	KeyAlgo int `json:",omitempty"`
 	// SameKeyID (harness handler): the requests of one agent key share one KeyId and name different CA keys
 	SameKeyID bool `json:",omitempty"`
+	// EmptyKeyAt (harness handler, 1-based, 0 = none): that agent key carries no signing request
+	EmptyKeyAt int `json:",omitempty"`
 	// NilParam: Run is called without request parameters (a nil pointer)
 	NilParam bool `json:",omitempty"`
 }
@@ -125,7 +127,7 @@ func runOnce(s Scenario, f Fault) (res runResult, infra error) {
 		}
 		h = w
 	} else {
-		fh := &vh.FakeHandler{ID: "h0", Accept: true, Log: hlog, Agent: agent.NewClient(conn), NKeys: s.NKeys, NReqs: s.NReqs, KeyAlgo: s.KeyAlgo, SameKeyID: s.SameKeyID,
+		fh := &vh.FakeHandler{ID: "h0", Accept: true, Log: hlog, Agent: agent.NewClient(conn), NKeys: s.NKeys, NReqs: s.NReqs, KeyAlgo: s.KeyAlgo, SameKeyID: s.SameKeyID, EmptyKeyAt: s.EmptyKeyAt,
 			Refresh: func(k *agent.Key) bool { return strings.Contains(k.Comment, "verif.h0-stale") }}
 		if f.Where == "handler" && f.Index == 0 {
 			fh.PanicIn = f.Kind
@@ -221,6 +223,9 @@ func exec(s Scenario) (vh.Outcome, error) {
 	wantCalls := 1
 	if !s.Real {
 		wantCalls = max(s.NKeys, 1) * max(s.NReqs, 1)
+		if s.EmptyKeyAt > 0 {
+			wantCalls -= max(s.NReqs, 1)
+		}
 	}
 	if len(dry.caCalls) != wantCalls {
 		return out, vh.Errf("%s: success reported after %d signing requests, expected %d", desc, len(dry.caCalls), wantCalls)
@@ -228,7 +233,7 @@ func exec(s Scenario) (vh.Outcome, error) {
 	if !s.Real {
 		i := 0
 		for k := 0; k < max(s.NKeys, 1); k++ {
-			for r := 0; r < max(s.NReqs, 1); r++ {
+			for r := 0; r < max(s.NReqs, 1) && s.EmptyKeyAt != k+1; r++ {
 				want := fmt.Sprintf("verif h0 key %d request %d", k, r)
 				got := dry.caCalls[i].Req.KeyId
 				if s.SameKeyID {
@@ -352,7 +357,7 @@ func exec(s Scenario) (vh.Outcome, error) {
 	return out, nil
 }
 
-const rule = "scenarios: the real regular handler, or a harness handler producing 1..3 agent keys x 1..3 requests through the repository's AgentKey (in a third of the scenarios the requests of one key share one KeyId and name different CA keys; key pairs of the default algorithm, RSA-2048, P-256 / 384 / 521 or Ed25519), CA returning 1..3 certificates per request (validity window as requested / without expiry / until 2^63 s / stamped by a clock 90 s ahead), 0..2 stale labelled certificates in the agent, optionally a rejecting handler in front (rejecting with an error of any kind, incl. the unknown kind and kinds that have no name), run under context.Background, a cancellable context (what cmd/gensign passes) or a deadline context (each case is journaled first: a fault that kills the process instead of coming back as an error is reported with its scenario). Per scenario a fault-free run fixes the number of agent operations n and CA calls m; then EVERY (operation index 0..n-1) x {failure reply, connection closed}, every CA call x {error (plain, typed with the unknown / an unnamed / the signer / a configuration kind, wrapping context.DeadlineExceeded or context.Canceled while the run's own context is alive, io.EOF), panic, error handed back together with certificates, certificates issued for another key} and a panic in each of Name / Authenticate / Generate / CSRs / AddCertsToAgent of the authenticating handler, plus a panic in Authenticate of the handler in front of it, plus - for the harness handler - every way Generate can fail (typed error with / without handler name, wrapped, no keys returned as nil or as an empty list) is executed in a fresh world (exhaustive per scenario; scenarios random). Oracle: challenge fault => AllAuthFailed; agent fault before the first CA call => a typed generation error; Generate failing or returning no key => the CSR-generation kind and no CA call; CA error => SignerSignErr and no further CA call; list / remove / add-certificate fault => AgentOpCertErr; any panic => Panic; always a *gensign.Error, the process survives; fault-free: nil, CA calls = all requests in order, every returned certificate in the agent; always: certificates added are a subset of those the CA returned. Non-trivial: at least one injected fault was reached and judged."
+const rule = "scenarios: the real regular handler, or a harness handler producing 1..3 agent keys x 1..3 requests through the repository's AgentKey (in a third of the scenarios with several keys one of them carries no request at all; in a third the requests of one key share one KeyId and name different CA keys; key pairs of the default algorithm, RSA-2048, P-256 / 384 / 521 or Ed25519), CA returning 1..3 certificates per request (validity window as requested / without expiry / until 2^63 s / stamped by a clock 90 s ahead), 0..2 stale labelled certificates in the agent, optionally a rejecting handler in front (rejecting with an error of any kind, incl. the unknown kind and kinds that have no name), run under context.Background, a cancellable context (what cmd/gensign passes) or a deadline context (each case is journaled first: a fault that kills the process instead of coming back as an error is reported with its scenario). Per scenario a fault-free run fixes the number of agent operations n and CA calls m; then EVERY (operation index 0..n-1) x {failure reply, connection closed}, every CA call x {error (plain, typed with the unknown / an unnamed / the signer / a configuration kind, wrapping context.DeadlineExceeded or context.Canceled while the run's own context is alive, io.EOF), panic, error handed back together with certificates, certificates issued for another key} and a panic in each of Name / Authenticate / Generate / CSRs / AddCertsToAgent of the authenticating handler, plus a panic in Authenticate of the handler in front of it, plus - for the harness handler - every way Generate can fail (typed error with / without handler name, wrapped, no keys returned as nil or as an empty list) is executed in a fresh world (exhaustive per scenario; scenarios random). Oracle: challenge fault => AllAuthFailed; agent fault before the first CA call => a typed generation error; Generate failing or returning no key => the CSR-generation kind and no CA call; CA error => SignerSignErr and no further CA call; list / remove / add-certificate fault => AgentOpCertErr; any panic => Panic; always a *gensign.Error, the process survives; fault-free: nil, CA calls = all requests in order, every returned certificate in the agent; always: certificates added are a subset of those the CA returned. Non-trivial: at least one injected fault was reached and judged."
 
 func TestC04Faults(t *testing.T) {
 	vh.Run(t, vh.Spec[Scenario]{Property: "C04", Name: "TestC04Faults", Rule: rule, Journal: true,
@@ -365,6 +370,9 @@ func TestC04Faults(t *testing.T) {
 				s.NReqs = rapid.IntRange(1, 3).Draw(t, "nreqs")
 				s.KeyAlgo = rapid.SampledFrom([]int{0, 0, 1, 3, 4, 5, 6}).Draw(t, "keyAlgo")
 				s.SameKeyID = rapid.IntRange(0, 2).Draw(t, "sameKeyID") == 1
+				if s.NKeys >= 2 && rapid.IntRange(0, 2).Draw(t, "emptyKey") == 1 {
+					s.EmptyKeyAt = rapid.IntRange(1, s.NKeys).Draw(t, "emptyKeyAt")
+				}
 			}
 			return s
 		}, Exec: exec})
@@ -428,7 +436,14 @@ func TestC04AllScenarios(t *testing.T) {
 			}
 		}
 	}
+	// shapes the random scenarios reach only now and then: a key without requests in front of keys that have some,
+	// requests that share a KeyId, every key algorithm
+	cases = append(cases, Scenario{NKeys: 3, NReqs: 1, NCerts: 1, EmptyKeyAt: 1}, Scenario{NKeys: 3, NReqs: 2, NCerts: 1, EmptyKeyAt: 2, Ctx: "cancel"},
+		Scenario{NKeys: 2, NReqs: 2, NCerts: 2, EmptyKeyAt: 2}, Scenario{NKeys: 1, NReqs: 3, NCerts: 1, SameKeyID: true}, Scenario{NKeys: 2, NReqs: 2, NCerts: 1, SameKeyID: true, Stale: 2})
+	for _, ka := range []int{1, 3, 4, 5, 6} {
+		cases = append(cases, Scenario{NKeys: 1, NReqs: 1, NCerts: 1, KeyAlgo: ka})
+	}
 	vh.Enumerate(t, vh.Spec[Scenario]{Property: "C04", Name: "TestC04AllScenarios", Exhaustive: true, Journal: true,
-		Rule: "the grid {real handler, harness handler with 1..2 keys x 1..2 requests} x {1, 2 certificates} x {0, 2 stale certificates} (20 scenarios), each with its complete single-fault enumeration; same oracle",
+		Rule: "the grid {real handler, harness handler with 1..2 keys x 1..2 requests} x {1, 2 certificates} x {0, 2 stale certificates} (20 scenarios), plus 10 shapes (a key without requests in front of / between / behind keys that have some, requests sharing a KeyId, each key algorithm), each with its complete single-fault enumeration; same oracle",
 		Exec: exec}, cases)
 }
